@@ -303,14 +303,25 @@ def leg_csv(ns, res, spec):
             f.write('b,J1\nb,J2\nzz,J3\n'.encode())
         os.chmod(inp, 0o644)
         before = {inp: sources.fingerprint(inp), jn: sources.fingerprint(jn)}
+        old_cwd = os.getcwd()
+        os.mkdir(os.path.join(d, 'sub'))
         for n in range(spec['n']):
             q = rng.choice(CSV_QUERIES)
             with_headers = rng.random() < 0.3
             outp = os.path.join(d, 'out_%d.csv' % n)
+            inp_arg = inp
+            if n % 5 == 4:
+                # the same input file under another spelling of its path, and an output path that is not a plain new file: the directory that holds the
+                # input (spelled in several ways), a path below a missing directory - whatever the front-end makes of it, the sources stay as they are
+                os.chdir(rng.choice([d, os.path.join(d, 'sub')]))
+                rel = os.path.relpath(d)
+                inp_arg = rng.choice([inp, os.path.join(rel, 'in_1.csv'), os.path.join(rel, '.', 'in_1.csv'), os.path.join(d, 'sub', '..', 'in_1.csv')])
+                outp = rng.choice([d, rel, rel + os.sep, os.path.join(d, 'sub', '..'), os.path.join(d, 'missing', 'o.csv'), os.path.join(d, 'sub'), os.path.dirname(d) + os.sep + os.path.basename(d)])
+                res.count('csv_runs_with_directory_or_odd_output_path')
             audit.start()
             err = None
             try:
-                ns.rbql.query_csv(q, inp, ',', 'quoted', outp, rng.choice([',', '\t']), rng.choice(['quoted', 'simple']), rng.choice(['utf-8', 'latin-1']), [], with_headers)
+                ns.rbql.query_csv(q, inp_arg, ',', 'quoted', outp, rng.choice([',', '\t']), rng.choice(['quoted', 'simple']), rng.choice(['utf-8', 'latin-1']), [], with_headers)
             except Exception as e:
                 err = util.error_class(e)
             events = audit.stop()
@@ -330,8 +341,12 @@ def leg_csv(ns, res, spec):
                     with open(pth, 'wb') as f:
                         f.write(b'a,x\nb,y\n')
                     before[pth] = sources.fingerprint(pth)
-            if os.path.exists(outp):
+            os.chdir(old_cwd)
+            if os.path.isfile(outp):
                 os.unlink(outp)
+            for extra in (os.path.join(d, 'sub', 'in_1.csv'),):
+                if os.path.exists(extra):
+                    os.unlink(extra)
             if n % 299 == 0:
                 res.sample({'leg': 'csv', 'query': q, 'error': err, 'opens': [e for e in events if e[0] == 'open' and isinstance(e[1], str) and e[1].startswith(d)][:4]})
     finally:
@@ -566,8 +581,8 @@ def run_shard(spec, res):
 
 def summarize(tier, seed, m):
     return {
-        'rule': 'the query generators of C01-C05 (every query shape) plus deliberately failing variants (syntax error, parsing error, runtime error, unknown join table), each executed (1) through rbql.query with probes and snapshots, (2) through the icontract-armed query_table, (3) with the CSV writer attached to list input, (4) on the JS engine with array snapshots; list tables with numbers, None and mutable list-valued cells under %d query texts (stars, UNNEST, every aggregate, list arithmetic and methods, UPDATE, joins) through query_table, the CSV writer as sink, a mutating probe sink and pandas object columns, compared with fully deep snapshots; pandas dataframes with deep copies; a file-backed sqlite database with recording connection, authorizer log, total_changes and file hash under %d hostile table identifiers (in the query text, as input table, and passed directly to SqliteRecordIterator); query_csv with file fingerprints and an audit-hook log of every open(); the CLI under strace. distinct_nontrivial = distinct executed (query, source) cases.' % (len(RICH_QUERIES), len(HOSTILE_IDS)),
-        'required': ['rich_cases_with_tuple_rows', 'js_rich_csv_sink_runs_succeeding', 'js_rich_table_runs', 'rich_runs_failing', 'rich_runs_succeeding', 'rich_runs:csv-writer-quoted', 'rich_runs:query+mutating-sink', 'rich_runs:pandas', 'list_runs_failing', 'list_runs_succeeding', 'contract_evaluations', 'csv_writer_on_list_runs', 'column_name_list_checks', 'pandas_runs_succeeding', 'pandas_runs_failing', 'pandas_runs_non_string_labels', 'sqlite_runs_hostile', 'sqlite_runs_with_open_transaction', 'sqlite_sql_statements_observed', 'sqlite_authorizer_events', 'sqlite_direct_constructor_runs', 'csv_runs_succeeding', 'csv_runs_failing', 'csv_open_events_observed', 'strace_cli_runs', 'strace_opens_of_sources_observed', 'js_cases'],
+        'rule': 'the query generators of C01-C05 (every query shape) plus deliberately failing variants (syntax error, parsing error, runtime error, unknown join table), each executed (1) through rbql.query with probes and snapshots, (2) through the icontract-armed query_table, (3) with the CSV writer attached to list input, (4) on the JS engine with array snapshots; list tables with numbers, None and mutable list-valued cells under %d query texts (stars, UNNEST, every aggregate, list arithmetic and methods, UPDATE, joins) through query_table, the CSV writer as sink, a mutating probe sink and pandas object columns, compared with fully deep snapshots; pandas dataframes with deep copies; a file-backed sqlite database with recording connection, authorizer log, total_changes and file hash under %d hostile table identifiers (in the query text, as input table, and passed directly to SqliteRecordIterator); query_csv with file fingerprints and an audit-hook log of every open() (one run in five with the input path spelled relatively / through .., and the output path naming the directory that holds the input, in several spellings, or a path below a missing directory); the CLI under strace. distinct_nontrivial = distinct executed (query, source) cases.' % (len(RICH_QUERIES), len(HOSTILE_IDS)),
+        'required': ['csv_runs_with_directory_or_odd_output_path', 'rich_cases_with_tuple_rows', 'js_rich_csv_sink_runs_succeeding', 'js_rich_table_runs', 'rich_runs_failing', 'rich_runs_succeeding', 'rich_runs:csv-writer-quoted', 'rich_runs:query+mutating-sink', 'rich_runs:pandas', 'list_runs_failing', 'list_runs_succeeding', 'contract_evaluations', 'csv_writer_on_list_runs', 'column_name_list_checks', 'pandas_runs_succeeding', 'pandas_runs_failing', 'pandas_runs_non_string_labels', 'sqlite_runs_hostile', 'sqlite_runs_with_open_transaction', 'sqlite_sql_statements_observed', 'sqlite_authorizer_events', 'sqlite_direct_constructor_runs', 'csv_runs_succeeding', 'csv_runs_failing', 'csv_open_events_observed', 'strace_cli_runs', 'strace_opens_of_sources_observed', 'js_cases'],
         'assumptions': ['hostile identifiers are only required not to reach sqlite and not to change the database; the error class they produce is not demanded', 'sqlite3.connect itself opens the database file read-write; the file hash (not the open mode) decides for sqlite'],
     }
 
